@@ -173,7 +173,7 @@ func trunc(s string, n int) string {
 }
 
 func TestGraphs(t *testing.T) {
-	ev.Check(t, "graphs", ev.N(30000, 600000), func(rt *rapid.T) {
+	ev.Check(t, "graphs", ev.N(30000, 3000000), func(rt *rapid.T) {
 		g := uni.GenGraph(rt, rapid.IntRange(0, 3).Draw(rt, "acyclic") == 0)
 		dest := rapid.SampledFrom([]string{"typed", "iface"}).Draw(rt, "dest")
 		runGraph(rt, "graphs", "TestGraphs", g, dest)
